@@ -26,6 +26,21 @@ func (e *Env) doDownSteps(steps []Step) {
 		switch st.K {
 		case "rm_meta":
 			meta := filepath.Join(filepath.Dir(e.DBPath), "."+filepath.Base(e.DBPath)+litestream.MetaDirSuffix)
+			// fact for finding F31: the replica holds a snapshot or compacted file whose
+			// TXIDs lie above its newest level-0 file at the moment the local state is lost
+			var l0max, hiMax ltx.TXID
+			for _, fi := range e.FS.AllListing() {
+				if fi.Level == 0 {
+					if fi.MaxTXID > l0max {
+						l0max = fi.MaxTXID
+					}
+				} else if fi.MaxTXID > hiMax {
+					hiMax = fi.MaxTXID
+				}
+			}
+			if hiMax > l0max {
+				e.Res.Probes["meta_lost_with_higher_level_ahead"]++
+			}
 			r = errStr(os.RemoveAll(meta))
 			e.Res.Probes["down:rm_meta"]++
 		case "save_copy":
